@@ -1,0 +1,10 @@
+//go:build !verif
+// +build !verif
+
+package soyhtml
+
+import "github.com/robfig/soy/ast"
+
+func verifLookup(key string, bound bool) {}
+
+func verifAt(node ast.Node) {}
